@@ -29,6 +29,11 @@ func init() {
 	propExplain["C17"] = "RHP contract constructors and cost functions are verified against contracts taken from the property statement (exact charge, preserved totals, exact split, bounded rollover, funding identity, consensus value predicates, v1 tax equation); obligations are generated from go/ssa of the working tree and discharged by SMT for all inputs satisfying the stated preconditions."
 }
 
+// propKinds: properties decided by particular obligation kinds only.
+var propKinds = map[string]map[string]bool{
+	"C09": {"frame": true, "purity": true},
+}
+
 func propExplanation(p string) string { return propExplain[p] }
 
 type extraEngine func(p *Program, res *CheckResult)
